@@ -67,7 +67,7 @@ CHECKS = {
  "C11": dict(
    technique="proptest against independent reference arithmetic (walked calendar, RFC 8536/POSIX zone reader, i128/rational): law-level oracle for Span::round over the full option product and every reference kind, exact i128 oracle for uniform units, exact rational oracle for Span::total (unit window found by search with addition), end-point ordering for Span::compare, exact (r+span)-r for to_duration, exact sums for uniform checked_add/sub, refusal rules",
    category="exploration",
-   text="Spans of any unit mix and both signs x reference {none, Date, DateTime, Zoned at/near transitions of every zone, days-are-24-hours marker} x smallest x largest x increment x 9 modes. Checked: units outside [largest, smallest] zero; smallest field a multiple of the increment; r+result is the neighbour the mode prescribes among r+(result with its smallest field +-increment), boundaries and ties strictly; uniform cases field-for-field; balancing (ns, 1) leaves r+span unchanged; totals to 2^-44 relative; compare = order of r+a, r+b; invalid options and calendar units without reference must be Err; nothing-near-a-limit must be Ok.",
+   text="Spans of any unit mix and both signs x reference {none, Date, DateTime, Zoned at/near transitions of every zone, days-are-24-hours marker} x smallest x largest x increment x 9 modes. Checked: units outside [largest, smallest] zero; smallest field a multiple of the increment; r+result is the neighbour the mode prescribes among r+(result with its smallest field +-increment), boundaries and ties strictly; uniform cases field-for-field; balancing (ns, 1) leaves r+span unchanged; totals to 2^-44 relative; compare = order of r+a, r+b; r+(a+b) == (r+a)+b for checked_add/sub with a relative datetime; with increment 1, expand lands on the trunc result or exactly one unit further; invalid options and calendar units without reference must be Err; nothing-near-a-limit must be Ok.",
    note="Stated tolerances (each counted in the evidence): f64 band for calendar smallest units strictly inside a decision point, half-even ties either way, Temporal-conformant quirks where jiff follows its documented model but the literal statement does not hold (bubbling onto a clamped day of month; re-rounding the remainder across a day whose length is not a multiple of the increment; wall-clock reading of whole units inside a fold for totals), no verdict next to transitions that skip a whole day. Listed finding: smallest=day, largest=week, increment>1 leaves a day field that is not a multiple of the increment.",
    design="DESIGN.md section 3 C11"),
  "C12": dict(
@@ -104,7 +104,7 @@ CHECKS = {
    technique="grammar- and structure-aware mutation fuzzing with the oracle inside the target: deterministic proptest mutation engine (quick) and coverage-guided libFuzzer/ASan campaigns on the same targets (thorough)",
    category="exploration",
    text="Valid printed values and real/synthetic TZif files are mutated (truncation, digit overflow, sign/separator swaps, long runs, invalid UTF-8; header counts, extreme/unsorted transitions, offsets, designation indexes, hostile footers) and fed to every parser; no panic, Ok values in range and re-printable, accepted zones answer a battery of lookups, peak heap while parsing TZif bounded by a multiple of the input (counting allocator), coarse time-scaling test.",
-   note="A process abort (stack overflow, memory error) is reported through a crash guard that names the running case. 'Work proportional to input' is decided by heap accounting plus a coarse timing test, not a complexity proof. The concatenated-tzdata reader is exercised through C18.",
+   note="A process abort (stack overflow, memory error) is reported through a crash guard that names the running case. 'Work proportional to input' is decided by heap accounting plus a coarse timing test, not a complexity proof. The concatenated-tzdata reader has its own structure-aware mutation check (c17.concat: generated tzdata files with mutated header words, index entries, names, truncations, through from_concatenated_path/available/get).",
    design="DESIGN.md section 3 C17"),
  "C18": dict(
    technique="differential proptest and exhaustive per-zone sweeps: one TZif byte string loaded through every back-end (zoneinfo directory, bundled table, generated Android-style concatenated file, raw bytes, static get!/include! macros) must give byte-identical answer digests; the same digests are computed by a second harness binary built without tz-fat and compared across builds; slim vs fat zic output compared from the first common transition; generated case variants of names; POSIX print/parse round trip on generated rules",
@@ -115,13 +115,13 @@ CHECKS = {
  "C19": dict(
    technique="stateful (model-based) proptest over histories of lookups, resets, on-disk file changes and TTL changes against a private zoneinfo tree whose file versions identify themselves; plus multi-threaded stress with a version-window oracle and a no-progress watchdog",
    category="exploration",
-   text="Histories of 1..30 operations are checked step by step against a model of disk, names index and per-entry cache; allowed results follow the statement (exactly the current version once the TTL has passed or after reset, cached-or-current inside the TTL, never another zone's data, canonical spelling, available() == index view). Stress rounds run 2/4/16 threads against one database while files are replaced atomically.",
+   text="Histories of 1..30 operations are checked step by step against a model of disk, names index and per-entry cache; allowed results follow the statement (exactly the current version once the TTL has passed or after reset, cached-or-current inside the TTL, never another zone's data, canonical spelling, available() == index view). A second model covers the concatenated (Android tzdata) back-end: lookups in four spellings, reset, file replacement and TTL changes against a generated tzdata file. Stress rounds run 2/4/16 threads against one database while files are replaced atomically.",
    note="Uses the cfg(jiff_verif) hook TimeZoneDatabase::__verif_set_ttl. Thread interleavings are sampled, not enumerated (std RwLock cannot be intercepted without non-additive changes). An entirely empty tree (documented: names are kept when the walk fails) is not generated.",
    design="DESIGN.md section 3 C19"),
  "C20": dict(
    technique="model-based testing of generated handle programs (reference model = payload per handle + allocation model via a counting global allocator), exhaustive enumeration of all fixed offsets, and the same interpreter as a libFuzzer target under AddressSanitizer/LeakSanitizer (thorough)",
    category="exploration",
-   text="Programs of up to ~150 operations over a pool of TimeZone handles of every kind (UTC, unknown, fixed, POSIX, TZif bytes, static get!) with clone/drop/move-through-Zoned/eq/query/swap and send-to-thread; every live handle must answer like a freshly built zone, equality laws hold, clones and non-last drops do not change live heap blocks, last drops free, nothing leaks; all 187,199 fixed offsets reproduce exactly.",
+   text="Programs of up to ~150 operations over a pool of TimeZone handles of every kind (UTC, unknown, fixed, POSIX, TZif bytes, static get!) with clone/drop/move-through-Zoned/eq/query/swap and send-to-thread; every live handle must answer like a freshly built zone, equality laws hold, clones and non-last drops do not change live heap blocks, last drops free, nothing leaks; all 187,199 fixed offsets reproduce exactly; every other program runs with its heap blocks placed at 8 mod 16 (alignment assumptions of the tagged pointer); the system zone as an unnamed TZif handle (TZ=:/path) obeys the same equality laws and answers like the same bytes loaded directly.",
    note="Use-after-free/double free proper are caught by ASan in the thorough tier; in the quick tier through the allocation model, wrong answers, or a process abort (crash guard + glibc malloc checking to name the case). Thread interleavings are sampled.",
    design="DESIGN.md section 3 C20"),
 }
